@@ -638,7 +638,7 @@ def gen_plan(seed: int, mode: str, scale: int = 1):
             tr = rng.sub("tamper", ntamper)
             p = tr.choice(projects)
             d = tr.choice([p.root + "/out", p.root + "/out", p.root])
-            how = tr.choice(["crlf", "crlf", "cr", "truncate", "empty", "append", "bom", "same_size", "strip_final_newline", "trailing_ws", "touch_future", "touch_past"])
+            how = tr.choice(["crlf", "crlf", "cr", "truncate", "empty", "append", "bom", "same_size", "same_crc32", "same_crc32", "same_head_tail", "swap_bytes", "strip_final_newline", "trailing_ws", "touch_future", "touch_past"])
             ops.append({"op": "tamper", "dir": d, "pick": tr.below(16), "how": how, "frac": tr.choice([0, 10, 50, 90, 99])})
             for lang in tr.sample(LANGS, tr.randint(1, 3)):
                 argv = [lang, p.root + "/" + p.main, d]
